@@ -134,7 +134,7 @@ func runCh(c chCase) (string, string) {
 		res = append(res, r)
 		m.Ack()
 	}
-	_ = sub.Close()
+	closeStuck := guard(func() string { _ = sub.Close(); return "ok" }) == "stuck"
 	_ = pub.Close()
 	expect := 0
 	if hasM(c.subStack) {
@@ -152,6 +152,9 @@ func runCh(c chCase) (string, string) {
 	obs := joinOr(res, ";") + "|probe=" + prs + "|metrics=" + mt + "|recv=" + wh.Itoa(recv)
 	if how == "timeout" {
 		obs += "|quiesce-timeout"
+	}
+	if closeStuck {
+		obs += "|close-stuck"
 	}
 	return c.head() + rec, obs
 }
